@@ -243,7 +243,7 @@ def run(run):
     quick = run.tier == "quick"
     BATCH_TIMEOUT[0] = 100 if quick else 1500
     shards = 4 if quick else max(4, C.NPROC // 2)
-    plan = [("compfail", 48 if quick else 1500), ("slowsub", 2 if quick else 12),
+    plan = [("compfail", 48 if quick else 1500), ("slowsub", 2 if quick else 12), ("slowlive", 2 if quick else 30),
             ("raw", 500 if quick else 5000), ("composite", 230 if quick else 3000),
             ("http", 28 if quick else 450), ("cluster", 14 if quick else 260)]
     stats, line_of, mism, samples = {}, {}, [], []
